@@ -35,3 +35,12 @@ VARIANTS += [
     M('C16', 'refactor-iso-regex-in-parts', E(SB, "RE_ISO8601 = r'^%Y-%m-%d([T ]%H:%M:%S(\\.%f)?)?$'", "ISO8601_DATE = r'%Y-%m-%d'\nISO8601_TIME = r'%H:%M:%S([.]%f)?'\nRE_ISO8601 = r'^' + ISO8601_DATE + r'(?:[T ]' + ISO8601_TIME + r')?$'"),
       kind='refactor'),
 ]
+
+VARIANTS += [
+    M('C16', 'provenance-overwrites-explicit-encoding', E(CW, "                    if dialect.get('encoding') is None:\n                        dialect['encoding'] = encoding", "                    if encoding is not None:\n                        dialect['encoding'] = encoding"),
+      rule='C16-EXPLICIT', key="dialect['encoding']"),
+    M('C16', 'provenance-overwrites-explicit-delimiter', [E(CW, "                            if dialect.get('delimiter') is None:\n                                dialect['delimiter'] = delimiter", "                            if delimiter:\n                                dialect['delimiter'] = delimiter"),
+                                                           E(CW, "                    if dcdialect and not dialect.get('delimiter'):", "                    if dcdialect:")],
+      rule='C16-EXPLICIT', key="dialect['delimiter']"),
+    M('C16', 'refactor-absence-by-membership', E(CW, "                    if dialect.get('encoding') is None:\n                        dialect['encoding'] = encoding", "                    if not dialect.get('encoding'):\n                        dialect['encoding'] = encoding"), kind='refactor'),
+]
